@@ -377,9 +377,9 @@ pub fn pygen(out_path: &str, tier: Tier, seed: u64) -> i32 {
             });
         }
         let kinds: &[&str] = if target == "validity" {
-            &["false", "raise", "raise-interrupted", "raise-keyboard", "raise-stopiteration", "raise-memory", "raise-badstr", "none", "str", "int", "list", "float", "tuple", "truthy"]
+            &["false", "raise", "raise-interrupted", "raise-keyboard", "raise-stopiteration", "raise-memory", "raise-badstr", "none", "str", "int", "list", "float", "tuple", "truthy", "array0d"]
         } else {
-            &["false", "raise", "raise-keyboard", "raise-generatorexit", "raise-interrupted", "raise-badstr", "none", "str", "tuple", "truthy"]
+            &["false", "raise", "raise-keyboard", "raise-generatorexit", "raise-interrupted", "raise-badstr", "none", "str", "tuple", "truthy", "array0d"]
         };
         let timeout = if sc.params.kind == PKind::Prm { 2.0 } else { 1.5 };
         for kind in kinds {
